@@ -95,7 +95,7 @@ def run(prop, tier, seed, opts):
                 else:
                     notes.append("NOTE schedule failure not reproduced alone: %s" % r.get("src"))
         # 3. ungated stress under the race detector + serial comparison + linearizability of recorded histories
-        modes = ["cacheon", "cacheoff", "autoreload", "smallattr"]
+        modes = ["cacheon", "cacheoff", "autoreload", "smallattr", "debug"]
         rounds = 2 if tier == "quick" else 12
         deadlocked = False
         for rnd in range(rounds):
